@@ -1008,7 +1008,12 @@ class DateTime(datetime.datetime, Date):
         if unit not in ["month", "quarter", "year"]:
             raise ValueError(f'Invalid unit "{unit}" for first_of()')
 
-        dt = cast(Optional["Self"], getattr(self, f"_nth_of_{unit}")(nth, day_of_week))
+        try:
+            dt = cast(Optional["Self"], getattr(self, f"_nth_of_{unit}")(nth, day_of_week))
+        except OverflowError:
+            # The loop walked past the last supported date (9999-12-31):
+            # the requested occurrence does not exist in the unit.
+            dt = None
         if not dt:
             raise PendulumException(
                 f"Unable to find occurrence {nth}"
